@@ -263,20 +263,20 @@ class LinearPaths:
   def _reverse_segment_name(name, separator):
     retval = []
     for part in name.split(separator):
-      has_openp = part[0] == "("
-      has_closep = part[-1] == ")"
+      has_openp = part[:1] == "("
       if has_openp:
-        part = part[1:-2]
+        part = part[1:]
+      has_closep = part[-1:] == ")"
       if has_closep:
         part = part[:-1]
-      if part[-1] == "^":
+      if part[-1:] == "^":
         part = part[:-1]
       else:
         part+="^"
       if has_openp:
         part+=")"
       if has_closep:
-        part+="("+part
+        part="("+part
       retval.append(part)
     return separator.join(reversed(retval))
 
